@@ -31,6 +31,17 @@ def lean(node, env):
     return to_lean(node, env, mode="field", funcs={"eqK": "eqK"})
 
 
+def order_only(test, what):
+    """A guard the carrier can state: comparisons through the order (and `==`, decided through the order) only — `!=`, `is`, `in`,
+    calls (`math.isnan(value)`) are outside it: the item degrades to the pinned guard instead of a definition that does not build."""
+    for n in ast.walk(test):
+        if isinstance(n, ast.Compare) and not all(isinstance(op, (ast.Lt, ast.LtE, ast.Gt, ast.GtE, ast.Eq)) for op in n.ops):
+            raise KeyError("%s: comparison outside the order" % what)
+        if isinstance(n, (ast.Call, ast.IfExp, ast.Lambda)):
+            raise KeyError("%s: not a plain comparison" % what)
+    return test
+
+
 def stmts(nodes):
     return ast.Module(body=list(nodes), type_ignores=[])
 
@@ -69,7 +80,7 @@ PIN = {
     "search.diff2": "(right - nv)",
     "search.pick_left": "(diff1 < diff2)",
     "search.in_place": "(diff < minDiff)",
-    "count.outside": "((x < lo) ∨ (x > hi))",
+    "count.outside": "(¬ ((lo ≤ x) ∧ (x ≤ hi)))",
     "count.at_min": "(eqK x lo)",
     "count.at_max": "(eqK x hi)",
     "count.left_test": "(x ≤ v0)",
@@ -197,8 +208,10 @@ def generate(o):
         f, left, right = count_chain()
         guards = [n for n in f.body if isinstance(n, ast.If) and len(n.body) == 1 and isinstance(n.body[0], ast.Return)]
         if what == "outside":
-            g = [n for n in guards if isinstance(n.test, ast.BoolOp) and ast.unparse(n.body[0].value) == "None"]
-            return lean(one(g, "count_at: outside guard").test, cenv)
+            # the guard on the query point, in whichever spelling: `value < h.min or value > h.max`, `not (h.min <= value <= h.max)`, …
+            # (translated as written: the two agree on numbers, not on NaN — C14.countAt_nan is stated over a carrier with NaN)
+            g = [n for n in guards if ast.unparse(n.body[0].value) == "None" and "value" in ast.unparse(n.test) and "h.bins" not in ast.unparse(n.test)]
+            return lean(order_only(one(g, "count_at: outside guard").test, "count_at: outside guard"), cenv)
         if what == "at_min":
             g = [n for n in guards if ast.unparse(n.body[0].value) == "0"]
             return lean(one(g, "count_at: value == min").test, cenv)
@@ -264,9 +277,15 @@ def generate(o):
         right = left.orelse[0]
         inner = right.orelse
         if what == "in_range":
-            g = [n for n in f.body if isinstance(n, ast.If) and isinstance(n.test, ast.UnaryOp) and isinstance(n.test.op, ast.Not)
-                 and ast.unparse(n.body[0]) == "return None"]
-            return lean(one(g, "quantile: if not (0 <= value <= 1)").test.operand, qenv)
+            # the guard on the level, in whichever spelling; `quantInRange` is the condition under which the function goes on:
+            # the operand of a `not (…)`, else the negation of the test as written (the two agree on numbers, not on NaN —
+            # C14.quantile_nan is stated over a carrier with NaN)
+            g = [n for n in f.body if isinstance(n, ast.If) and len(n.body) == 1 and ast.unparse(n.body[0]) == "return None" and not n.orelse
+                 and "value" in ast.unparse(n.test) and "h.bins" not in ast.unparse(n.test)]
+            t = order_only(one(g, "quantile: guard on the level").test, "quantile: guard on the level")
+            if isinstance(t, ast.UnaryOp) and isinstance(t.op, ast.Not):
+                return lean(t.operand, qenv)
+            return "(¬%s)" % lean(t, qenv)
         if what == "qcount_arg":
             e = one(assigned(f.body, "q_count"), "q_count")
             if not (isinstance(e, ast.Call) and ast.unparse(e.func) == "int" and len(e.args) == 1):
